@@ -16,6 +16,7 @@ Line-protocol driver for C18 (decimal amount strings <-> 18-decimal integers).
                            a<int> (AddFT), u<int> (SubFT), g (GetFT); one answer token per step:
                            s | a | u:<0|1>:<int|nil> | g:<int|nil>   (NILPANIC if Go would deref nil)
 
+  cfg <0|1> <0|1> <0|1>    switch Proposal 002 / 005 / 017 off or on for the following ops -> cfg
   xfer <int> <hex-string>  service.ChangeAssets, source holding <int>, one target, amount string
                            -> xfer <ok|fail> <src after> <dst after> <response, blanks as _>
   stake <u64>              Float64ToBigInt(float64(n))    -> ok <int> | PANIC
@@ -157,6 +158,9 @@ def step (_ : Unit) (line : String) : Unit × String :=
     match n.toInt? with
     | some n => ((), showRes "err" (evmValue n))
     | none => ((), "bad-op")
+  | ["cfg", a, b, c] =>
+    -- fork flags (Proposal 002 / 005 / 017): the model is flag-free (Props/C18Gen.gen_fork_flag_reads)
+    if (a == "0" || a == "1") && (b == "0" || b == "1") && (c == "0" || c == "1") then ((), "cfg") else ((), "bad-op")
   | ["xfer", n, h] =>
     match n.toInt?, ofHex? h with
     | some n, some b =>
